@@ -212,6 +212,8 @@ def rule_index_space(ctx: Ctx) -> None:
 
 
 def run(ctx: Ctx) -> None:
+    from ..rules import solvers as _slvf
+    _slvf.rule_frontinsert_owner(ctx)
     rule_index_space(ctx)
     rule_unconditional_steps(ctx)
     from ..rules import echelon as _echelon
